@@ -680,17 +680,40 @@ def rule_bom(ck: Check, repo: Repo) -> None:
     # structure of the handling: split off under a startswith test, processed text without it, written back first
     fn = repo.func(f"{AN}.add_header_to_file")
     src = re.sub(r"\s+", " ", ast.unparse(fn))
-    split = re.search(r"if text\.startswith\('\\ufeff'\): (\w+) = '\\ufeff' text = (text\[1:\]|text\.removeprefix\('\\ufeff'\))", src)
-    var = split.group(1) if split else None
-    init = var is not None and f"{var} = ''" in src
+    # enumerated shapes: (a) `bom = ''` + `if text.startswith(BOM): bom = BOM; text = text[1:] | text.removeprefix(BOM)`
+    #                    (b) `bom = BOM if text.startswith(BOM) else ''` + `text = text.removeprefix(bom)` / `text[len(bom):]`
+    BOMLIT = "'\\ufeff'"
+    var = None
+    init = False
+    split_node = None
+    for n in ast.walk(fn):
+        if isinstance(n, ast.Assign) and len(n.targets) == 1 and isinstance(n.targets[0], ast.Name):
+            v = n.value
+            if isinstance(v, ast.IfExp) and ast.unparse(v.body) == BOMLIT and ast.unparse(v.orelse) == "''" \
+                    and ast.unparse(v.test) == f"text.startswith({BOMLIT})":
+                var, init = n.targets[0].id, True
+    if var is None:
+        for n in ast.walk(fn):
+            if isinstance(n, ast.If) and ast.unparse(n.test) == f"text.startswith({BOMLIT})":
+                for st in n.body:
+                    if isinstance(st, ast.Assign) and ast.unparse(st.value) == BOMLIT and isinstance(st.targets[0], ast.Name):
+                        var = st.targets[0].id
+        init = var is not None and f"{var} = ''" in src
+    if var is not None:
+        for n in ast.walk(fn):
+            if isinstance(n, ast.Assign) and ast.unparse(n.targets[0]) == "text":
+                v = ast.unparse(n.value)
+                guarded = any(isinstance(g, ast.If) and n in list(ast.walk(g)) and ast.unparse(g.test) == f"text.startswith({BOMLIT})" for g in ast.walk(fn))
+                if v in (f"text.removeprefix({var})", f"text.removeprefix({BOMLIT})", f"text[len({var}):]") or (v == "text[1:]" and guarded):
+                    split_node = n
+    split = split_node is not None
     from ..rules import deep_text as _deep2
     wr = [_deep2(fn, c.args[0]) for c in _writes_to_written_file(fn)]
     raw = [ast.unparse(c.args[0]) for c in _writes_to_written_file(fn)]
     back = var is not None and (raw == [f"{var} + output"] or wr == [_deep2(fn, f"{var} + output")]
                                 or (len(wr) == 1 and wr[0].startswith(f"{var} + ")))
     det = [n for n in ast.walk(fn) if isinstance(n, ast.Assign) and ast.unparse(n.value) == "detect_line_endings(text)"]
-    ifs = [n for n in ast.walk(fn) if isinstance(n, ast.If) and "startswith('\\ufeff')" in ast.unparse(n.test)]
-    before_processing = bool(ifs and det and _ord(fn)[id(ifs[0])] < _ord(fn)[id(det[0])])
+    before_processing = bool(split_node is not None and det and _ord(fn)[id(split_node)] < _ord(fn)[id(det[0])])
     r.instance("bom-structure", {"split_off": bool(split), "initialised_empty": init, "written_back_first": back,
                                  "before_processing": before_processing})
     if not (split and init and back and before_processing):
